@@ -124,6 +124,38 @@ fn main() {
             for v in p.P.nzval.iter_mut() { *v *= sc; }
             g_probs.push(p);
         }
+        // stratum "soc_axis": LPs in t whose entries also bound the norm of blocks x_i that occur only
+        // in a symmetric cost, so every second-order iterate sits exactly on the cone axis
+        // (planted: t* > 0 strictly feasible with x = 0; dual z_soc = (zeta, 0, .., 0))
+        {
+            let ns = if thorough { 1200 } else { 200 };
+            for kk in 0..ns {
+                let (nt, kb, m1, w) = [(3usize, 2usize, 2usize, 1.0f64), (5, 2, 3, 0.0), (4, 5, 3, 1.0), (8, 1, 5, 1.0)][kk % 4];
+                let n = nt * (1 + kb);
+                let m = m1 + n;
+                let mut Pd = vec![vec![0.0; n]; n];
+                for i in 0..nt { for j in 0..kb { let c = i * (1 + kb) + 1 + j; Pd[c][c] = w; } }
+                let tstar: Vec<f64> = (0..nt).map(|_| 0.5 + 1.5 * rng.unit()).collect();
+                let znn: Vec<f64> = (0..m1).map(|_| 0.2 + 1.8 * rng.unit()).collect();
+                let zeta: Vec<f64> = (0..nt).map(|_| 0.2 + 1.8 * rng.unit()).collect();
+                let mut Ad = vec![vec![0.0; n]; m];
+                let mut b = vec![0.0; m];
+                for row in 0..m1 {
+                    let mut gt = 0.0;
+                    for i in 0..nt { let g = 2.0 * rng.unit() - 1.0; Ad[row][i * (1 + kb)] = g; gt += g * tstar[i]; }
+                    b[row] = gt + 0.2 + 1.8 * rng.unit();
+                }
+                for c in 0..n { Ad[m1 + c][c] = -1.0; }
+                let mut q = vec![0.0; n];
+                for i in 0..nt { let col = i * (1 + kb); let gz: f64 = (0..m1).map(|row| Ad[row][col] * znn[row]).sum(); q[col] = zeta[i] - gz; }
+                let mut cones = vec![NonnegativeConeT(m1)];
+                cones.extend((0..nt).map(|_| SecondOrderConeT(1 + kb)));
+                let mut Ptri = vec![vec![0.0; n]; n];
+                for i in 0..n { Ptri[i][i] = Pd[i][i]; }
+                let p = Prob { P: dense_rows_to_csc(&Ptri, n, n), q, A: dense_rows_to_csc(&Ad, m, n), b, cones, label: format!("soc axis nt={} k={} w={}", nt, kb, w), intent: 0 };
+                s_probs.push(("soc_axis".to_string(), p));
+            }
+        }
         // strata "across all supported cone types": pure problems of one cone kind each
         // (same sizes, same well-posedness rule), so that a defect confined to one kind is
         // not diluted by the mixtures
